@@ -405,7 +405,10 @@ def stratified(rng, items: list[tuple], k: int) -> list:
     for v in strata.values():
         rng.shuffle(v)
     out = []
+    # strata with the fewest character classes first (every class alone in every slot, every empty / minimal payload), the rest shuffled
     keys = sorted(strata, key=lambda t: (t[0], sorted(t[1])))
+    rng.shuffle(keys)
+    keys.sort(key=lambda t: len(t[1]))
     while len(out) < k and any(strata[key] for key in keys):
         for key in keys:
             if strata[key] and len(out) < k:
@@ -528,6 +531,7 @@ def run(ctx: Ctx) -> Outcome:
         "executed_by_real_sh_and_curl": len(picks),
         "executed_strata": len({(cases[i]["slot"], cases[i]["m"], features(cases[i])) for i in picks}),
         "strata_total": len({(cases[i]["slot"], cases[i]["m"], features(cases[i])) for i, _ in sendable}),
+        "executed_slots": sorted({cases[i]["slot"] for i in picks}),
         "empty_or_minimal_payload_elements": sum(1 for c in cases if c["m"] != "-"),
         "model_matches_real_tools": sum(1 for v in verdicts if v["model"] == "T"),
         "model_indefinite_on_executed": sum(1 for v in verdicts if v["model"] == "U"),
